@@ -55,7 +55,7 @@ run)
   mkdir -p .work/seedrun; cp known_findings.json .work/seedrun/
   [ -z "$(git -C /repo status --porcelain)" ] || { echo "/repo is not clean"; exit 2; }
   trap 'git -C /repo checkout -- . ; git -C /repo clean -fdq pkg' EXIT
-  git -C /repo apply "seeded/$id/patch.diff" || exit 2
+  git -C /repo apply "$PWD/seeded/$id/patch.diff" || exit 2
   for c in "${checks[@]}"; do
     out=$(VERIF_ROOT=/verif/.work/seedrun ./run.sh "$c" "${TIER:-quick}" 2>&1); rc=$?
     n=$(echo "$out" | grep -c "^VIOLATION property=$c ")
